@@ -120,6 +120,21 @@ def paths(tree, conds=()):
     return [(conds, tree)]
 
 
+def feasible(conds):
+    """no scrutinee is constrained to an empty set and no condition is required both true and false"""
+    rng, truth = {}, {}
+    for c in conds:
+        if len(c) == 3:
+            cur = rng.get(c[0])
+            rng[c[0]] = c[2] if cur is None else sym.rs_inter(cur, c[2])
+            if not rng[c[0]]:
+                return False
+        elif len(c) == 2:
+            if truth.setdefault(c[0], c[1]) != c[1]:
+                return False
+    return True
+
+
 def classify_exit(fn, bb, body):
     """'error' | 'other' for an exit target of a loop: 'error' when nothing reachable from it re-enters the loop and the
     only values the return place receives on the way are `Err(..)` aggregates or `?` residual conversions (so the function
@@ -187,6 +202,8 @@ def summarize(prog, fn, models=None, opaque=()):
         ne = sym.normal_exit(fn, h, body)
         ps = []
         for conds, leaf in paths(tree):
+            if not feasible(conds):
+                continue        # the same scrutinee is constrained to disjoint sets along this path
             if isinstance(leaf, tuple) and leaf and leaf[0] == "exit":
                 cls = classify_exit(fn, leaf[1], body)
                 if cls != "error" and len(leaf) >= 3 and leaf[2] is not None:
